@@ -5,7 +5,7 @@ import z3
 from pyvc import source, REPO, VERIF
 from pyvc.interp import Interp, explore, Outside, PyExc, SymVal, Contract, GenList, BoundSource
 from pyvc.world import World
-from pyvc.smt import Obligation, Result
+from pyvc.smt import Obligation, Result, discharge
 from pyvc.par import pmap
 from checks import selection, rulesem as RS
 from checks.structs import Holder, Tok
@@ -121,6 +121,118 @@ def score_obligations(ctx):
         def decode(m): return dict(is_rank_optim=bool(z3.is_true(m.eval(rank, model_completion=True))), raises=sorted(set(excs)))
         ctx.add(Obligation(name, z3.And(*cl) if cl else z3.BoolVal(True), where=where, decode=decode,
                            meta=dict(clause='the score function raises no exception for any value of is_rank_optim (candidate_score is None exactly when rank optimisation is off)', rule_class=rc.__name__, logic=logic.Meta.name)))
+
+# ------------------------------------------------------------------ order-insensitivity of rules that iterate unordered collections
+
+def _order_work(lname):
+    """universal modal rules (they iterate the set of accessible worlds) and fat quantifier rules (they iterate the set of
+    unapplied constants): the SET of instances offered must not depend on the iteration order, for every decided content of the
+    branch (which instances are already there / already applied)."""
+    from pytableaux.proof import rules as PR, helpers as H
+    from contracts import rules as R
+    from contracts.rules import WorldTok, Param, NodeVal
+    logic = RS.registry()(lname); L = logic.Meta.name
+    out = []; funcs = {}
+    w2, w3 = WorldTok('w2'), WorldTok('w3')
+    class WIdx(SymVal):
+        def __init__(s, order): s.order = order
+        def sym_getitem(s, it, branch):
+            o = s.order
+            class M(SymVal):
+                def sym_getattr(s2, it, name):
+                    if name == 'get': return Contract(lambda it, w1, default=None: GenList(o), 'WorldIndex[branch].get')
+                    raise Outside(f'WorldIndex[branch].{name}')
+            return M()
+        def sym_getattr(s, it, name): raise Outside(f'WorldIndex.{name}')
+    class Applied(SymVal):
+        def __init__(s, names): s.names = names
+        def sym_getitem(s, it, branch): return s
+        def sym_contains(s, it, x):
+            try: return repr(x[1]) in s.names
+            except Exception: raise Outside('NodesWorlds key')
+    class BranchFixed(R.BranchTok):
+        def __init__(s, present): super().__init__(); s.present = present
+        def sym_getattr(s, it, name):
+            if name == 'has': return Contract(lambda it, node: repr(node.props.get('world')) in s.present, 'Branch.has')
+            return super().sym_getattr(it, name)
+    class Least(SymVal):
+        def sym_getattr(s, it, name):
+            if name == 'isleast': return Contract(lambda it, n, b: True, 'NodeCount.isleast')
+            raise Outside(f'NodeCount.{name}')
+    subsets = [(), ('w2',), ('w3',), ('w2', 'w3')]
+    for rc in RS.rule_classes(logic):
+        kind = RS.classify(rc)
+        if kind == 'modal':
+            fn = None
+            for c in rc.__mro__:
+                if '_get_node_targets' in c.__dict__: fn, defc = c.__dict__['_get_node_targets'], c; break
+            fi = source.of_function(fn)
+            if 'WorldIndex' not in fi.src: continue          # witness-creating modal rules do not iterate
+            funcs[fi.key] = dict(file=fi.relfile, qualname=fi.qualname, lines=f'{fi.lineno}-{fi.end_lineno}', sha1=fi.sha1)
+            inner = RS.inner_sentence(rc, 'modal')
+            world = R.make_world()
+            bad = None; und = None; offered = 0
+            for applied in subsets:
+                for present in subsets:
+                    got = {}
+                    for order in ([w2, w3], [w3, w2]):
+                        def run(path, order=order):
+                            it = Interp(path, world)
+                            rm = R.RuleModel(rc, logic, helpers={H.WorldIndex: WIdx(order), H.NodesWorlds: Applied(applied), H.NodeCount: Least()})
+                            node, ns = RS._node_for(logic, rc, inner)
+                            return it.iterate(it.call(rm.bound('_get_node_targets'), [node, BranchFixed(present)], {}))
+                        try: prs = explore(run)
+                        except Outside as e: und = f'outside subset: {e}'; break
+                        if len(prs) != 1 or prs[0].kind != 'return': und = f'forks or raises on a decided branch content: {[p.kind for p in prs]}'; break
+                        inst = set()
+                        for t in prs[0].value:
+                            for g in t['adds']:
+                                for nd in g: inst.add((repr(nd.props.get('sentence')), nd.props.get('designated'), repr(nd.props.get('world'))))
+                        got[tuple(map(repr, order))] = inst
+                    if und: break
+                    a, b = got.values()
+                    offered += len(a)
+                    if a != b and bad is None:
+                        bad = dict(applied_to=list(applied), present_at=list(present), offered={str(k): sorted(map(list, v)) for k, v in got.items()})
+                if und: break
+            name = f'C09.order.{L}.{rc.__name__}'
+            if und: out.append(Result(name, 'unknown', detail=und, where=fi.where)); continue
+            out.append(discharge(Obligation(name, bad is None and offered > 0, kind='enum', where=fi.where,
+                                            meta=dict(logic=L, rule=rc.__name__, clause='the set of instances offered is the same for both iteration orders of the accessible worlds, for all 16 decided branch contents', cex=bad))))
+        elif kind == 'quant-fat' and source.defining_class(rc, '_get_node_targets') is PR.ExtendedQuantifierRule:
+            fn = PR.ExtendedQuantifierRule.__dict__['_get_node_targets']; fi = source.of_function(fn)
+            funcs[fi.key] = dict(file=fi.relfile, qualname=fi.qualname, lines=f'{fi.lineno}-{fi.end_lineno}', sha1=fi.sha1)
+            from checks.c02 import NodeConstsModel, BranchK
+            inner = RS.inner_sentence(rc, 'quant-fat')
+            world = R.make_world()
+            c_, d_ = Param('const', 'c'), Param('const', 'd')
+            got = {}; und = None
+            for order in ([c_, d_], [d_, c_]):
+                def run(path, order=order):
+                    it = Interp(path, world)
+                    rm = R.RuleModel(rc, logic, helpers={H.NodeConsts: NodeConstsModel(GenList(order)), H.AdzHelper: None, H.NodeCount: None})
+                    node, ns = RS._node_for(logic, rc, inner)
+                    return it.iterate(it.call_source(fi, fn, PR.ExtendedQuantifierRule, [rm, node, BranchK(True)], {}, recv=rm))
+                try: prs = explore(run)
+                except Outside as e: und = f'outside subset: {e}'; break
+                sets = set()
+                for pr in prs:
+                    if pr.kind != 'return': sets.add('exception'); continue
+                    sets.add(frozenset(repr(t['constant']) for t in pr.value))
+                got[tuple(map(repr, order))] = sets
+            name = f'C09.order.{L}.{rc.__name__}'
+            if und: out.append(Result(name, 'unknown', detail=und, where=fi.where)); continue
+            a, b = got.values()
+            out.append(discharge(Obligation(name, a == b and a == {frozenset(['c', 'd'])}, kind='enum', where=fi.where,
+                                            meta=dict(logic=L, rule=rc.__name__, clause='both unapplied constants are served, in either iteration order of the NodeConsts set', cex=dict(offered={str(k): [sorted(x) if not isinstance(x, str) else x for x in v] for k, v in got.items()})))))
+    return out, funcs
+
+def order_obligations(ctx):
+    from pyvc.smt import discharge
+    names = [l.Meta.name for l in RS.all_logics()]
+    for res, funcs in pmap(_order_work, names):
+        for r in res: ctx.add_result(r)
+        ctx.functions.update(funcs)
 
 def stepiter_obligation(ctx):
     from pytableaux.proof import Tableau
@@ -270,6 +382,7 @@ def run(ctx):
             if r.name.endswith('.order-insensitive') or r.status == 'unknown': ctx.add_result(r)
         ctx.functions.update(funcs)
     ctx.replayers['C09.identity.'] = replay_identity_order
+    order_obligations(ctx)
     bounded_search_independence(ctx)
     ctx.replayers['C09.'] = lambda r: dict(reproduced=None, detail='see counterexample / meta')
 
